@@ -10,13 +10,16 @@ HOSTILE = [None, None, None, None, "near-degenerate", "huge-weight", "high-frequ
 FILLS = ["zero", "small-negative", "garbage"]
 
 
-def gen_case(ctx, i):
+def gen_case(ctx, i, reuse=None):
+    """``reuse`` = (v0, t, v) of an earlier case: a different spectrum on the very same (T,V) grid (process history)."""
     rng = ctx.rng("case", i)
     hostile = HOSTILE[i % len(HOSTILE)]
     nq = 1 if hostile == "gamma-only" else None
     natoms = 1 if hostile == "one-atom" else None
     spec = W.gen_spectrum(rng, nq=nq, natoms=natoms, hostile=hostile)
     t, v = W.gen_grids(rng, spec, hostile=hostile)
+    if reuse is not None:
+        spec.v0, t, v = reuse[0], reuse[1].copy(), reuse[2].copy()
     strains = W.gen_strains(rng, len(v))
     fill = FILLS[i % 3]
     calc = W.make_calc(rng, spec, t, v, gamma_fill=fill)
@@ -31,12 +34,18 @@ def run(ctx):
     try:
         import cij.core.phonon_contribution.nonshear as ns
         ncases = ctx.pick(70, 100000)
+        prev = None
         for i in range(ncases):
             case_id = f"case{i}"
             if not ctx.mine(i, case_id):
                 continue
             current["id"] = case_id
-            rng, hostile, spec, t, v, strains, fill, calc = gen_case(ctx, i)
+            # every third case of a shard re-uses the (T,V) grid of the case before it with a new spectrum, weights and strains
+            reuse = prev if (prev is not None and (i // ctx.nshards) % 3 == 1) else None
+            rng, hostile, spec, t, v, strains, fill, calc = gen_case(ctx, i, reuse=reuse)
+            if reuse is not None:
+                hostile = (hostile or "generic") + "+grid-of-previous-case"
+            prev = (spec.v0, t, v)
             pairs = [(0, 0), (1, 1), (2, 2), (0, 1), (0, 2), (1, 2)]
             nontriv_modes = spec.mask.sum() > 0
             for (a, b) in pairs:
